@@ -12,22 +12,24 @@ N = 0xFFFFFFFFFFFFFFFFFFFFFFFFFFFFFFFEBAAEDCE6AF48A03BBFD25E8CD0364141
 
 
 class Poly:
-    """dict: monomial (tuple of (atom_key, exp) sorted) -> coefficient in [1, N)"""
-    __slots__ = ("t",)
+    """dict: monomial (tuple of (atom_key, exp) sorted) -> coefficient in [1, M); M = modulus"""
+    __slots__ = ("t", "M")
 
-    def __init__(self, t=None):
+    def __init__(self, t=None, M=N):
         self.t = t or {}
+        self.M = M
 
     @staticmethod
-    def const(c):
-        c %= N
-        return Poly({(): c} if c else {})
+    def const(c, M=N):
+        c %= M
+        return Poly({(): c} if c else {}, M)
 
     @staticmethod
-    def atom(key):
-        return Poly({((key, 1),): 1})
+    def atom(key, M=N):
+        return Poly({((key, 1),): 1}, M)
 
     def add(self, o):
+        N = self.M
         r = dict(self.t)
         for m, c in o.t.items():
             v = (r.get(m, 0) + c) % N
@@ -35,18 +37,21 @@ class Poly:
                 r[m] = v
             else:
                 r.pop(m, None)
-        return Poly(r)
+        return Poly(r, N)
 
     def neg(self):
-        return Poly({m: (N - c) % N for m, c in self.t.items()})
+        N = self.M
+        return Poly({m: (N - c) % N for m, c in self.t.items()}, N)
 
     def scale(self, k):
+        N = self.M
         k %= N
         if not k:
-            return Poly()
-        return Poly({m: (c * k) % N for m, c in self.t.items()})
+            return Poly(None, N)
+        return Poly({m: (c * k) % N for m, c in self.t.items()}, N)
 
     def mul(self, o):
+        N = self.M
         r = {}
         for m1, c1 in self.t.items():
             for m2, c2 in o.t.items():
@@ -56,7 +61,7 @@ class Poly:
                     r[m] = v
                 else:
                     r.pop(m, None)
-        return Poly(r)
+        return Poly(r, N)
 
     def is_zero(self):
         return not self.t
@@ -89,22 +94,35 @@ def mono_div(a, b):
 
 
 class Normalizer:
-    def __init__(self, path):
+    def __init__(self, path, M=N):
         self.p = path
+        self.M = M
         self.atoms = {}        # key -> z3 term
         self.rules = []        # (lhs monomial, replacement Poly)
         self.inv_of = {}       # poly key -> atom key of its inverse
         self.cache = {}
 
+    def C(self, c):
+        return Poly.const(c, self.M)
+
+    def A(self, k):
+        return Poly.atom(k, self.M)
+
+    def PP(self, t=None):
+        return Poly(t, self.M)
+
     def akey(self, t):
+        N = self.M
         k = "a:" + t.sexpr()
         self.atoms.setdefault(k, t)
         return k
 
     def is_inv_app(self, t):
+        N = self.M
         return z3.is_app(t) and t.decl().name() == "modpow_%d_%d" % (N - 2, N)
 
     def poly(self, t):
+        N = self.M
         from .engine import TKey
         i = TKey(t)
         if i in self.cache:
@@ -115,13 +133,14 @@ class Normalizer:
         return r
 
     def _poly(self, t):
+        N = self.M
         if z3.is_int_value(t):
-            return Poly.const(t.as_long())
+            return self.C(t.as_long())
         if z3.is_app(t):
             k = t.decl().kind()
             ch = t.children()
             if k == z3.Z3_OP_ADD:
-                r = Poly()
+                r = self.PP()
                 for c in ch:
                     r = r.add(self.poly(c))
                 return r
@@ -133,27 +152,28 @@ class Normalizer:
             if k == z3.Z3_OP_UMINUS:
                 return self.poly(ch[0]).neg()
             if k == z3.Z3_OP_MUL:
-                r = Poly.const(1)
+                r = self.C(1)
                 for c in ch:
                     r = r.mul(self.poly(c))
                 return r
             if k == z3.Z3_OP_MOD and z3.is_int_value(ch[1]) and ch[1].as_long() == N:
                 return self.poly(ch[0])
-            if t.decl().name() == "zn_inv":
+            if t.decl().name() == "zn_inv_%d" % (N % 1000003):
                 return self.poly_inverse(self.poly(ch[0]))
             if t.decl().name() == "nlmul":
                 return self.poly(ch[0]).mul(self.poly(ch[1]))
             if self.is_inv_app(t):
                 return self.inverse(self.poly(ch[0]), ch[0], t)
-        return Poly.atom(self.akey(t))
+        return self.A(self.akey(t))
 
     def inverse(self, q, q_term, app):
         """polynomial for q^(N-2) mod N"""
+        N = self.M
         if not self.p.implied(q_term % N != 0):
-            return Poly.atom(self.akey(app))           # possibly zero: stays opaque
+            return self.A(self.akey(app))           # possibly zero: stays opaque
         if len(q.t) == 1:
             (m, c), = q.t.items()
-            r = Poly.const(pow(c, N - 2, N))
+            r = self.C(pow(c, N - 2, N))
             for ak, e in m:
                 r = r.mul(self.atom_inverse(ak, e))
             return r
@@ -164,30 +184,32 @@ class Normalizer:
             d = dict(m)
             common = d if common is None else {k: min(e, d.get(k, 0)) for k, e in common.items() if d.get(k, 0) > 0}
         m0 = tuple(sorted((k, e) for k, e in (common or {}).items() if e > 0))
-        q1 = Poly({mono_div(m, m0): c for m, c in q.t.items()}) if m0 else q
+        q1 = self.PP({mono_div(m, m0): c for m, c in q.t.items()}) if m0 else q
         lc = q1.t[q1.lead()]
         q2 = q1.scale(pow(lc, N - 2, N))
-        r = Poly.const(pow(lc, N - 2, N)).mul(self.poly_inverse(q2))
+        r = self.C(pow(lc, N - 2, N)).mul(self.poly_inverse(q2))
         for ak, e in m0:
             r = r.mul(self.atom_inverse(ak, e))
         return self.reduce(r)
 
     def atom_inverse(self, ak, e):
+        N = self.M
         if ak.startswith("i:"):
             base = self.inv_base[ak]
-            r = Poly.const(1)
+            r = self.C(1)
             for _ in range(e):
                 r = r.mul(base)
             return r
-        ik = self.poly_inverse_key(Poly.atom(ak))
-        r = Poly.const(1)
+        ik = self.poly_inverse_key(self.A(ak))
+        r = self.C(1)
         for _ in range(e):
-            r = r.mul(Poly.atom(ik))
+            r = r.mul(self.A(ik))
         return r
 
     inv_base = None
 
     def poly_inverse_key(self, q):
+        N = self.M
         if self.inv_base is None:
             self.inv_base = {}
         qk = q.key()
@@ -198,17 +220,19 @@ class Normalizer:
         self.inv_base[ik] = q
         lm = q.lead()
         lc = q.t[lm]
-        rest = Poly({m: c for m, c in q.t.items() if m != lm})
+        rest = self.PP({m: c for m, c in q.t.items() if m != lm})
         lhs = mono_mul(lm, ((ik, 1),))
         # lm * t  ->  (1 - rest * t) / lc
-        repl = Poly.const(1).add(rest.mul(Poly.atom(ik)).neg()).scale(pow(lc, N - 2, N))
+        repl = self.C(1).add(rest.mul(self.A(ik)).neg()).scale(pow(lc, N - 2, N))
         self.rules.append((lhs, repl))
         return ik
 
     def poly_inverse(self, q):
-        return Poly.atom(self.poly_inverse_key(q))
+        N = self.M
+        return self.A(self.poly_inverse_key(q))
 
     def reduce(self, p):
+        N = self.M
         if not self.rules:
             return p
         for _ in range(2000):
@@ -224,18 +248,20 @@ class Normalizer:
             if not hit:
                 return p
             m, c, d, repl = hit
-            rest = Poly({k: v for k, v in p.t.items() if k != m})
-            p = rest.add(repl.mul(Poly({d: c})))
+            rest = self.PP({k: v for k, v in p.t.items() if k != m})
+            p = rest.add(repl.mul(self.PP({d: c})))
         raise RuntimeError("zn_ring: reduction did not terminate")
 
     # -- back to z3
     def term_of_atom(self, ak):
+        N = self.M
         if ak.startswith("a:"):
             return self.atoms[ak]
-        f = z3.Function("zn_inv", z3.IntSort(), z3.IntSort())
+        f = z3.Function("zn_inv_%d" % (N % 1000003), z3.IntSort(), z3.IntSort())
         return f(self.term_of(self.inv_base[ak]))
 
     def term_of(self, p):
+        N = self.M
         if p.is_zero():
             return z3.IntVal(0)
         items = sorted(p.t.items())
@@ -248,14 +274,8 @@ class Normalizer:
             for ak, e in m:
                 for _ in range(e):
                     fs.append(self.term_of_atom(ak))
-            prod = None
-            for f in fs:
-                if prod is None:
-                    prod = f
-                else:
-                    from .ops import NLMUL
-                    x, y = sorted([prod, f], key=lambda u: u.sexpr())
-                    prod = NLMUL(x, y)
+            from .ops import nl_product
+            prod = nl_product(fs) if fs else None
             t = z3.IntVal(c) if prod is None else (prod if c == 1 else z3.IntVal(c) * prod)
             terms.append(t)
         s = terms[0]
@@ -263,8 +283,19 @@ class Normalizer:
             s = s + t
         return s % N
 
+    def term_mod(self, p):
+        """z3 term of the residue p (always of the form `... % M` or a numeral)"""
+        N = self.M
+        t = self.term_of(p)
+        if z3.is_int_value(t):
+            return t
+        if z3.is_app(t) and t.decl().kind() == z3.Z3_OP_MOD:
+            return t
+        return t % N
+
     def canonical(self, t):
         """-> (poly, canonical z3 term of +-poly, sigma) with poly == sigma * canon (mod N)"""
+        N = self.M
         p = self.poly(t)
         if p.is_zero():
             return p, z3.IntVal(0), 1
@@ -277,9 +308,8 @@ class Normalizer:
         return p, self.term_of(q), sigma
 
 
-def normalizer(path):
-    n = path.__dict__.get("_zn")
-    if n is None:
-        n = Normalizer(path)
-        path._zn = n
-    return n
+def normalizer(path, M=N):
+    d = path.__dict__.setdefault("_zn", {})
+    if M not in d:
+        d[M] = Normalizer(path, M)
+    return d[M]
